@@ -847,10 +847,10 @@ class SymStr:
 
     # -- editing
     def replace(self, old, new, count=-1):
-        if count != -1:
-            raise Unsupported("replace count")
+        if not isinstance(count, int):
+            raise Unsupported("symbolic replace count")
         old, new = SymStr.of(old), SymStr.of(new)
-        if len(old.cs) == 1 and len(new.cs) == 1 and isinstance(old.cs[0], str) and isinstance(new.cs[0], str):
+        if count < 0 and len(old.cs) == 1 and len(new.cs) == 1 and isinstance(old.cs[0], str) and isinstance(new.cs[0], str):
             o, n = old.cs[0], new.cs[0]
             out = []
             for c in self.cs:
@@ -868,10 +868,12 @@ class SymStr:
         out = []
         i = 0
         n, m = len(self.cs), len(old.cs)
+        left = count
         while i < n:
-            if i + m <= n and Ctx.cur.decide_b(zand([ch_eq(self.cs[i + k], old.cs[k]) for k in range(m)])):
+            if left != 0 and i + m <= n and Ctx.cur.decide_b(zand([ch_eq(self.cs[i + k], old.cs[k]) for k in range(m)])):
                 out.extend(new.cs)
                 i += m
+                left -= 1
             else:
                 out.append(self.cs[i])
                 i += 1
